@@ -183,6 +183,16 @@ DRIVER = textwrap.dedent('''
                             except Exception as e:
                                 problems.append({"part": "responses", "kind": "unserialisable", "op": op["id"], "case": case["label"], "detail": repr(e)[:200]})
                                 continue
+                            want_cls = case.get("response_class")
+                            if want_cls and type(r).__name__ != want_cls:
+                                problems.append({"part": "responses", "kind": "wrong-type", "op": op["id"], "case": case["label"],
+                                                 "detail": "returned a %%s (%%r), the annotated return type is %%s" %% (type(r).__name__, r, want_cls), "sent": case["response"]})
+                                continue
+                            item_cls = case.get("response_item_class")
+                            if item_cls and isinstance(r, list) and any(type(x).__name__ != item_cls for x in r):
+                                problems.append({"part": "responses", "kind": "wrong-item-type", "op": op["id"], "case": case["label"],
+                                                 "detail": "items %%s, annotated item type %%s" %% (sorted({type(x).__name__ for x in r}), item_cls), "sent": case["response"]})
+                                continue
                             ds = [d for d in diffs(case["response_filled"], back) if d[1] != "tolerated"]
                             if ds:
                                 problems.append({"part": "responses", "kind": "changed", "op": op["id"], "case": case["label"], "detail": json.dumps(ds)[:400], "sent": case["response"]})
@@ -205,6 +215,20 @@ def _arg_value(schema, where, variant):
     if where == "header":
         return "v 1" if variant == 0 else "0"
     return "a b&c=d" if variant == 0 else "0"
+
+
+def _model_class(schemas, sch):
+    """class name of the value a `$ref` to a named object or enum schema decodes to (None for anything else: aliases, unions, containers, primitives)"""
+    from pyopenapi_gen.core.utils import NameSanitizer
+    if not isinstance(sch, dict) or "$ref" not in sch:
+        return None
+    name = sch["$ref"].split("/")[-1]
+    target = schemas.get(name) or {}
+    if target.get("properties") or target.get("allOf") or ("enum" in target and target.get("type") in ("string", "integer")):
+        if target.get("type") == "object" and not target.get("properties") and not target.get("allOf"):
+            return None
+        return NameSanitizer.sanitize_class_name(name)
+    return None
 
 
 def plan_for(doc, parts):
@@ -254,7 +278,8 @@ def plan_for(doc, parts):
                         if body_schema is not None and (variant == 0 or rb.get("required")):
                             body = payload.conforming(schemas, body_schema, variant)
                         cases.append({"label": f"{code}/{'all' if variant == 0 else 'required-only'}", "status": int(code), "args": supplied, "path": url, "body": body,
-                                      "response": resp, "response_filled": payload.with_defaults(schemas, js, resp) if js is not None else None})
+                                      "response": resp, "response_filled": payload.with_defaults(schemas, js, resp) if js is not None else None,
+                                      "response_class": _model_class(schemas, js), "response_item_class": _model_class(schemas, (js or {}).get("items")) if isinstance(js, dict) and js.get("type") == "array" else None})
                 if cases:
                     plan["operations"].append({"id": op["operationId"], "py": NameSanitizer.sanitize_method_name(op["operationId"]), "method": m, "params": params, "cases": cases})
     return plan
